@@ -79,9 +79,14 @@ def main():
         print('patch does not apply:', out)
         return 2
     try:
-        rc, out = sh('%s -m pytest -q -p no:cacheprovider 2>&1 | tail -1' % PY, cwd=REPO)
-        res['unit_tests'] = out.strip().splitlines()[-1] if out.strip() else ''
-        res['ran'].append('unit tests with change -> %s' % res['unit_tests'])
+        # the pinned suite must pass whatever the string-hash seed (some of its tests iterate sets)
+        outs_ = []
+        for h in ('0', '1', '2', '3', '4', '5'):
+            rc, out = sh('%s -m pytest -q -p no:cacheprovider 2>&1 | tail -1' % PY, cwd=REPO, env={'PYTHONHASHSEED': h})
+            outs_.append(out.strip().splitlines()[-1] if out.strip() else '')
+        bad_ = [o for o in outs_ if '87 passed' not in o]
+        res['unit_tests'] = bad_[0] if bad_ else outs_[0]
+        res['ran'].append('unit tests with change under PYTHONHASHSEED 0..5 -> %s' % [o.split(' in ')[0] for o in outs_])
         outs = [sh('%s %s/demo.py' % (PY, seed), cwd=REPO, env={'PYTHONHASHSEED': h}) for h in HS]
         rcs = [o[0] for o in outs]
         rc = max(rcs)
